@@ -214,6 +214,9 @@ def _sym(y):
     return int(round(y))
 
 
+_LAST_HMM = []          # [HMM object, track, observation name(s), mode] of the last decode_with_tracklib call
+
+
 def decode_with_tracklib(mdl, log, mode="scalar", verbose=0, ctor=False, trace=None, rawlog=False):
     """Run the real HMM.estimate.  Returns (inference, cost) or M.Raised."""
     from tracklib.algo.dynamics import HMM
@@ -248,6 +251,7 @@ def decode_with_tracklib(mdl, log, mode="scalar", verbose=0, ctor=False, trace=N
         h.setLog(log)
         h.setStationarity(mdl.stationary)
     obsname = "sym" if mode == "scalar" else ["x", "y"]
+    _LAST_HMM[:] = [h, tr, obsname, mode]
     if trace is not None:
         with M.capture_locals([HMM.estimate.__code__], ["TAB_VAL", "TAB_MRK"], trace):
             r = M.call(h.estimate, tr, obsname, mode=MODE_NAMES[mode], verbose=verbose)
@@ -786,6 +790,7 @@ def run_rnd(case, ctx):
 
     trace = []
     out = decode_with_tracklib(mdl, False, case["mode"], case["verbose"], case["ctor"], trace)
+    hmm0 = list(_LAST_HMM)
     w = judge(mdl, out, p, q, best, ctx, "likelihood mode")
     t, b = tie_diagnostics(mdl, trace, False)
     ctx.count("diag_tie_cells", t)
@@ -867,7 +872,21 @@ def run_rnd(case, ctx):
         return violated(w, sig, nt, cls)
     if mdl.outside:
         ctx.count("callback_calls_outside_documented_sets", mdl.outside)
-    return held(sig, nt, cls)
+    res_ = held(sig, nt, cls)
+
+    def again():
+        # the same HMM object decodes the same track again after ANOTHER model (another HMM object) was decoded in
+        # between
+        h, tr0, obsname, mode0 = hmm0
+        r = M.call(h.estimate, tr0, obsname, mode=MODE_NAMES[mode0], verbose=0)
+        out_ = r if M.is_raised(r) else M.call(lambda: (list(tr0["hmm_inference"]), list(tr0["hmm_cost"])))
+        w_ = judge(mdl, out_, p, q, best, ctx, "the first HMM object, decoding again after another model was decoded in between")
+        if w_ is not None:
+            w_.update({"counts": counts, "sequences": nseq})
+        return w_
+    if not wide and len(hmm0) == 4:
+        res_["again"] = again
+    return res_
 
 
 def run_case(case, ctx):
